@@ -420,6 +420,26 @@ def run(ctx):
                               'result depends on earlier calls in the process (or on a catalog object an earlier '
                               'call modified): differs from the fresh-process result',
                               {'call': list(c), 'fresh': short(exp), 'got': short(got), 'repetition': rep})
+    # planner histories (planhist): several queries on ONE planner object, or fresh planners sharing catalog objects;
+    # every plan must equal the plan of the same query planned alone with a fresh copy of the catalog
+    from . import planhist
+    plan_pool = [c[1] for c in calls if c[0] == 'plan']
+    n_ph = 0
+    for h in planhist.histories(rng, 120 if thorough else 30, plan_pool):
+        for mode in ('planner', 'catalog'):
+            out = planhist.run_history(h, copy.deepcopy(CATALOG), mode)
+            for pos, (sql, st, plan) in enumerate(out):
+                fsql, fst, fplan = planhist.fresh(sql, CATALOG)
+                n_ph += 1
+                a = (st, jdump(plan_proj(plan)) if plan is not None else '')
+                b = (fst, jdump(plan_proj(fplan)) if fplan is not None else '')
+                if a != b:
+                    ctx.violation('history-dependent:plan:%s' % mode,
+                                  'the plan of a query depends on the queries planned before it (%s reused)' %
+                                  ('one planner object' if mode == 'planner' else 'the same catalog objects'),
+                                  {'history': h[:pos + 1], 'mode': mode, 'alone': short(b[0] + ' ' + b[1]),
+                                   'in_history': short(a[0] + ' ' + a[1])})
+    ctx.cov['planner_history_plans'] = n_ph
     if jdump(proj(shared)) != cat0:
         ctx.note('planning wrote into the caller-owned catalog objects (allowed while later results are unchanged)')
         ctx.cov['catalog_written'] = True
